@@ -124,6 +124,7 @@ func TestC19(t *testing.T) {
 	var batches []string
 	var trajectory []int
 	disagreements := 0
+	corrBroken := ""
 	synctest.Test(t, func(t *testing.T) {
 		w := NewWorld(t, Seed())
 		defer w.Close()
@@ -187,10 +188,15 @@ func TestC19(t *testing.T) {
 			synctest.Wait()
 			d := w.Client.Delivery.Query().Where(delivery.MessageID(msgID)).OnlyX(w.Ctx)
 			isAck := d.CompletedAt != nil
-			if isAck != modelAck[code] {
+			documented := code == 102 || code == 200 || code == 201 || code == 202 || code == 204
+			if isAck != documented {
 				disagreements++
-				violate("status-map", fmt.Sprintf("endpoint answered %d (-1 = transport error): delivery acknowledged=%v, model (documented success set 200/201/202/204/102) says %v", code, isAck, modelAck[code]), fmt.Sprint(code))
+				violate("status-map", fmt.Sprintf("endpoint answered %d (-1 = transport error): delivery acknowledged=%v, but the documented success set is 200/201/202/204/102", code, isAck), fmt.Sprint(code))
 				break
+			}
+			if isAck != modelAck[code] && corrBroken == "" {
+				// the model's status table is regenerated from the source: it no longer describes the behaviour
+				corrBroken = fmt.Sprintf("status %d: implementation acknowledged=%v, the model built from the regenerated status table says %v", code, isAck, modelAck[code])
 			}
 			st.Distinct(fmt.Sprint(code))
 			switch {
@@ -269,6 +275,51 @@ func TestC19(t *testing.T) {
 			served++
 			st.Count("burst_served", 1)
 		}
+		// long climb: batches of simultaneous fast successes
+		// until the window has had the chance to pass its cap
+		if len(st.Violations) == 0 {
+			w2 := *w
+			n := 20000
+			total := 0
+			for round := 0; round < 400 && total < 2600; round++ {
+				window := pusher.CurrentFlowControl().MaxMessages
+				b := window
+				if b > 45 {
+					b = 45
+				}
+				var msgs []MsgSpec
+				for i := 0; i < b; i++ {
+					msgs = append(msgs, MsgSpec{N: n})
+					n++
+				}
+				w2.execInner(Op{K: "publish", Topic: "t", Msgs: msgs}, &Result{T: w.Now()})
+				var held []*pushReq
+				for len(held) < b {
+					r := next()
+					if r == nil {
+						time.Sleep(time.Second)
+						if r = next(); r == nil {
+							break
+						}
+					}
+					held = append(held, r)
+				}
+				for _, r := range held {
+					r.respond <- pushResp{code: 204}
+				}
+				total += len(held)
+				synctest.Wait()
+				st.Count("climb_served", len(held))
+				if wdw := pusher.CurrentFlowControl().MaxMessages; wdw < 1 || wdw > 1000 {
+					violate("window", fmt.Sprintf("after %d simultaneous fast successes the window is %d, outside 1..1000", len(held), wdw), fmt.Sprint(wdw))
+					break
+				}
+				if pusher.CurrentFlowControl().MaxMessages >= 1000 && round%3 == 2 {
+					break
+				}
+			}
+			st.Set("climb_final_window", pusher.CurrentFlowControl().MaxMessages)
+		}
 		cancel()
 		// drain whatever is still waiting so that the streamer can shut down
 		for i := 0; i < 50; i++ {
@@ -302,7 +353,12 @@ func TestC19(t *testing.T) {
 		writeFile(p, "batches "+strings.Join(batches, ",")+"\nmodel "+want+"\nimpl  "+strings.Join(gotT, ","))
 		st.Violate(Violation{What: "adaptive window trajectory differs from the model: batches " + strings.Join(batches, ",") + " model " + want + " impl " + strings.Join(gotT, ","), Replay: p, FoundInput: false, Sig: "correspondence"})
 	}
-	st.Set("evaluations", len(codes)+st.Get("retries_checked")+st.Get("burst_served"))
+	if corrBroken != "" && len(st.Violations) == 0 {
+		p := ReplayPath(fmt.Sprintf("C19-status-correspondence-%d.txt", Seed()))
+		writeFile(p, corrBroken)
+		st.Violate(Violation{What: "correspondence with the regenerated status table broken: " + corrBroken, Replay: p, FoundInput: false, Sig: "correspondence"})
+	}
+	st.Set("evaluations", len(codes)+st.Get("retries_checked")+st.Get("burst_served")+st.Get("climb_served"))
 	st.Set("traces_validated_against_impl", len(codes)-disagreements)
 	st.Set("rule", "the real HttpPushStreamer under testing/synctest with an in-memory RoundTripper scripted per request: one message per final status code (quick: 22 codes incl. transport error; thorough: every code 200-599 and 100-103), fast and slow answers, retry after back-off, then a 40-message burst; distinct = distinct status codes")
 	st.Sample(map[string]interface{}{"batches": batches, "window_trajectory": trajectory})
